@@ -64,6 +64,7 @@ type VerifOp struct {
 	Second   []VerifEnt    `json:"second,omitempty"`    // race: the second writer's batch (the first one's is Ents)
 	PauseAt  string        `json:"pause_at,omitempty"`  // race: hook point at which the first writer is held
 	FirstTxn bool          `json:"first_txn,omitempty"` // race: the first writer is a (single-dataset) transaction
+	Reject   bool          `json:"reject,omitempty"`    // batch: an entity with a nil reference is appended, StoreEntities must refuse the whole batch
 }
 
 type VerifCase struct {
@@ -91,6 +92,7 @@ type VerifOpObs struct {
 	Pages   [][]VerifEnt        `json:"pages,omitempty"` // entities
 	RPages  [][]VerifRel        `json:"rpages,omitempty"`
 	Found   bool                `json:"found,omitempty"`
+	Seqs    []int64             `json:"seqs,omitempty"`
 	Raw     map[string][]string `json:"raw,omitempty"` // rawkeys: index id -> keys (hex) in Badger iteration order
 	NewSeqs int                 `json:"newseqs,omitempty"`
 }
@@ -270,6 +272,11 @@ func verifDoOp(h *verifHub, op VerifOp, idx int, times map[int]int64, tokens map
 		}
 		for _, e := range ents {
 			oo.Lens = append(oo.Lens, verifLen(e))
+		}
+		if op.Reject {
+			bad := NewEntity("ns3:poison", 0)
+			bad.References["ns3:r1"] = nil
+			ents = append(ents, bad)
 		}
 		before, _ := ds.GetChangesWatermark2()
 		if err := ds.StoreEntities(ents); err != nil {
@@ -539,6 +546,28 @@ func verifDoOp(h *verifHub, op VerifOp, idx int, times map[int]int64, tokens map
 		}
 		verifStamp(idx, times, verifLastTime(ds), times[1<<30])
 		times[1<<30] = times[idx]
+	case "seqs":
+		// the sequence numbers really present in the dataset's change log (key layout: idx=4, dataset id, sequence, entity id)
+		ds := h.dsm.GetDataset(op.Ds)
+		if ds == nil {
+			oo.Err = "no dataset"
+			return
+		}
+		oo.Seqs = []int64{}
+		_ = store.database.View(func(txn *badger.Txn) error {
+			prefix := make([]byte, 6)
+			binary.BigEndian.PutUint16(prefix, DatasetEntityChangeLog)
+			binary.BigEndian.PutUint32(prefix[2:], ds.InternalID)
+			opts := badger.DefaultIteratorOptions
+			opts.PrefetchValues = false
+			opts.Prefix = prefix
+			it := txn.NewIterator(opts)
+			defer it.Close()
+			for it.Seek(prefix); it.ValidForPrefix(prefix); it.Next() {
+				oo.Seqs = append(oo.Seqs, int64(binary.BigEndian.Uint64(it.Item().Key()[6:14])))
+			}
+			return nil
+		})
 	case "rawkeys":
 		oo.Raw = map[string][]string{}
 		_ = store.database.View(func(txn *badger.Txn) error {
